@@ -83,6 +83,33 @@ func hexList(xs []string) string {
 }
 
 func msgRule(g *vh.Gen, key string, rs *ruleSet) {
+	if g.Chance(0.12) {
+		// the handler answers with a message it built itself: nothing is kept from the one it was handed - no
+		// sender, no recipients, no subject, and only the mailboxes it sets (none unless it does)
+		stmts := []string{"local m = inbound_message.new()"}
+		mb, from, to, subj := "[]", vh.HS(""), "[]", vh.HS("")
+		if g.Chance(0.7) {
+			boxes := []string{g.Pick("fresh", "box2"), "second"}[:1+g.Intn(2)]
+			qs := make([]string, len(boxes))
+			for i, b := range boxes {
+				qs[i] = q(b)
+			}
+			stmts = append(stmts, "m.mailboxes = {"+strings.Join(qs, ", ")+"}")
+			mb = "[" + hexList(boxes) + "]"
+		}
+		if g.Chance(0.4) {
+			stmts = append(stmts, fmt.Sprintf("m.from = address.new(%s, %s)", q("F"), q("f@fresh.org")))
+			from = vh.HS("f@fresh.org")
+		}
+		if g.Chance(0.4) {
+			stmts = append(stmts, "m.subject = "+q("fresh subject"))
+			subj = vh.HS("fresh subject")
+		}
+		stmts = append(stmts, "return m")
+		rs.lua = append(rs.lua, fmt.Sprintf("[%s] = function(arg1)\n %s\n end", q(key), strings.Join(stmts, "\n ")))
+		rs.labels = append(rs.labels, vh.HS(key)+"=O"+mb+";"+from+";"+to+";"+subj)
+		return
+	}
 	var stmts []string
 	mb, from, to, subj := "~", "~", "~", "~"
 	if g.Chance(0.5) {
@@ -358,7 +385,23 @@ func exec(kind string, in []string) []string {
 	if kind == "luapar" {
 		dump = smtpd.SortWithinBoxes(dump)
 	}
-	return []string{strings.Join(reps, "|"), mt, rt, env.HdrTable(), dump, status + ";" + env.IPTable()}
+	// the raw reply lines (greeting dropped), for the text of hook-denied replies
+	raws := make([]string, len(streams))
+	for i := range streams {
+		ls := strings.Split(strings.TrimSuffix(string(outs[i]), "\r\n"), "\r\n")
+		if len(ls) > 0 {
+			ls = ls[1:]
+		}
+		hs := make([]string, len(ls))
+		for j, l := range ls {
+			hs[j] = vh.HS(l)
+		}
+		raws[i] = strings.Join(hs, ",")
+		if raws[i] == "" {
+			raws[i] = "-"
+		}
+	}
+	return []string{strings.Join(reps, "|"), mt, rt, env.HdrTable(), dump, status + ";" + env.IPTable(), strings.Join(raws, "|")}
 }
 
 func main() { vh.Main(gen, exec) }
